@@ -290,7 +290,10 @@ def reset_clears(facts, struct, member, rfn):
                 pre.append(s)
             body = pre[:12]
         for s in body:
+            in_lambda = set(id(y) for x in ir.walk(s) if x.get("k") == "Lambda" for y in ir.walk(x.get("body") or {}))
             for n in ir.walk(s):
+                if id(n) in in_lambda:
+                    continue            # the body of a lambda runs where it is called, not where it is declared
                 if n.get("k") == "OpCall" and n.get("op") == "=" and len(n.get("args", [])) == 2 and path(n["args"][0]) == ("this", member):
                     sig = (n.get("callee") or {}).get("sig", [])
                     isnone = sig == ["boost::none_t"] or any(x.get("qn") == "boost::none" for x in ir.walk(n["args"][1]))
